@@ -13,7 +13,7 @@ RULE_TEXT = ('texts offered to ElectionProfile(data=...): for a set of fixed see
              'prefix at token granularity and at character granularity, every single-token deletion / duplication / neighbour swap, and every '
              'single-token replacement and insertion from a hostile alphabet (out-of-range and negative ids, -n forms, = groups with repeats, '
              'unbalanced quotes / brackets / parentheses / comment markers, 5000-digit numbers, non-ASCII digits, separators) - this mutation '
-             'set is enumerated completely per seed file - plus token soups over the BLT alphabet and arbitrary unicode strings. Outcome must be '
+             'set is enumerated completely per seed file - plus token soups over the BLT alphabet, arbitrary unicode strings, and files on disk offered through path= (other encodings, truncated multi-byte sequences, stray and random bytes). Outcome must be '
              'ElectionProfileError or a profile satisfying the invariants of a valid election; accepted profiles without [droop] options must '
              'construct under all 11 rules. non-trivial = a text that is not a valid file yet is accepted, or is rejected from inside the ballot '
              '/ name sections; distinct = distinct texts')
@@ -93,6 +93,39 @@ def trial(ctx, text, kind, valid_known=False):
     ctx.sample(dict(kind=kind, text=text[:300]), keep=3)
 
 
+def trial_bytes(ctx, data, kind):
+    "the text offered as a file on disk (path=), possibly not valid UTF-8"
+    import os, tempfile
+    ctx.evaluated()
+    ctx.count('texts_tried')
+    ctx.count('kind:' + kind)
+    out = os.path.join(os.path.dirname(os.path.dirname(os.path.dirname(os.path.abspath(__file__)))), 'out')
+    fd, path = tempfile.mkstemp(suffix='.blt', dir=out)
+    try:
+        with os.fdopen(fd, 'wb') as f:
+            f.write(data)
+        try:
+            with cpu_budget(20.0):
+                p = ElectionProfile(path=path)
+        except ElectionProfileError:
+            ctx.count('rejected_cleanly')
+            return
+        except BudgetExceeded:
+            ctx.count('budget_overrun_first')
+            return
+        except Exception as e:      # pylint: disable=broad-except
+            tb = traceback.extract_tb(e.__traceback__)
+            where = next((fr.name for fr in reversed(tb) if 'droop' in fr.filename), tb[-1].name if tb else '?')
+            ctx.violation('parser-raises:%s:%s' % (type(e).__name__, where), 'reading a %d-byte file raised %s: %s (%s)'
+                          % (len(data), type(e).__name__, str(e)[:120], kind), dict(blt=data.decode('latin-1'), as_bytes_latin1=True))
+            return
+    finally:
+        os.unlink(path)
+    ctx.count('accepted')
+    ctx.count('files_via_path_accepted')
+    invariants_and_ctor(ctx, p, data.decode('utf-8', 'replace'), kind)
+
+
 def mutation_set(ctx, seed, chars=True):
     "complete enumeration of prefixes and single-token mutations of one seed text"
     toks = seed.split()
@@ -141,6 +174,27 @@ def shard(ctx):
                 n = rng.randint(0, 60)
                 trial(ctx, ''.join(chr(rng.choice([rng.randint(0, 0x7f), rng.randint(0x80, 0x2fff), rng.randint(0xd800, 0xdfff),
                                                    rng.randint(0x1f000, 0x1ffff), 0x20, 0x0a, 0x22, 0x30, 0x31])) for _ in range(n)), 'unicode')
+            # files on disk: other encodings, truncated multi-byte sequences, stray bytes
+            base = rng.choice(SEEDS).replace('Castor', 'Cast\u00f6r').replace('"A"', '"\u00c4"')
+            for _ in range(25):
+                k = rng.randint(0, 5)
+                if k == 0:
+                    data = base.encode('latin-1', 'replace')
+                elif k == 1:
+                    data = base.encode('utf-16')
+                elif k == 2:
+                    b = base.encode('utf-8')
+                    cut = rng.randint(1, len(b))
+                    data = b[:cut]
+                elif k == 3:
+                    b = bytearray(base.encode('utf-8'))
+                    b.insert(rng.randint(0, len(b)), rng.choice([0xff, 0xfe, 0x80, 0xc3, 0x00]))
+                    data = bytes(b)
+                elif k == 4:
+                    data = bytes(rng.randint(0, 255) for _ in range(rng.randint(0, 80)))
+                else:
+                    data = b'\xef\xbb\xbf' + base.encode('utf-8')
+                trial_bytes(ctx, data, 'file-bytes')
             # structured numeric soups: headers with extreme counts
             for _ in range(100):
                 nc = rng.choice([0, 1, 2, 3, 255, 256, 10 ** 6, 10 ** 12])
